@@ -194,6 +194,23 @@ theorem guard_vecValidate (d : Dict) (l : LenTy) (s : Slice) (len slots : Nat) (
       else if d.ssize = 0 then .ok () else vecElems d (max l.size d.align) s len 0 := by
   simp [vecD, hr, hs, Gen.gVecValidate_cond, Gen.gVecValidate_kind]
 
+/-- portable `Bool` (`portable/src/bool_.rs`): the byte is rejected exactly when it is outside the range the `match` accepts -/
+theorem guard_bool (a : Nat) (b : UInt8) (rest : Bytes) :
+    boolD.validateU ⟨a, b :: rest⟩ =
+      if Gen.gBoolInvalid_cond b.toNat then .err ⟨Gen.gBoolInvalid_kind, Gen.gBoolInvalid_pos b.toNat⟩ else .ok () := by
+  simp only [boolD, Gen.gBoolInvalid_cond, Gen.gBoolInvalid_kind, Gen.gBoolInvalid_pos]
+  by_cases h : b.toNat ≤ 1
+  · have : ¬ b.toNat > 1 := by omega
+    simp [h, this]
+  · have : b.toNat > 1 := by omega
+    simp [h, this]
+/-- `[T; N]::validate_unchecked` (`base/src/primitive.rs`): element `i` is validated on exactly its own bytes, its error offset by its start -/
+theorem arr_loop_step (d : Dict) (s : Slice) (k i : Nat) :
+    arrLoop d s (k+1) i = (do
+      let a ← s.dropU (Gen.arrElemStart i d.ssize)
+      let e ← a.takeU (Gen.arrElemLen d.ssize)
+      (d.validateU e).offset (Gen.arrElemErrPos i d.ssize)
+      arrLoop d s k (i+1)) := rfl
 /-- the element loop of `FlatVec::validate_unchecked`: skipped for zero-sized elements, and an element's error is reported at the
 extracted position -/
 theorem vec_elems_step (d : Dict) (dOff : Nat) (s : Slice) (k i : Nat) :
@@ -437,7 +454,7 @@ theorem guard_initWalker (fs : List Ty) (last : Ty) (vals : List Bytes) (li : In
       (s.take (floorMul s.len (alignL (dictL fs ++ [last.dict])))) = .err e := h
   cases e
   simp [emplaceU, h', Gen.initWalkerErrPos]
-theorem guards_untranslatable_none : (Gen.flexFillItemErrPos_untranslatable || Gen.flexItemErrPos_untranslatable || Gen.flexSlotReadErrPos_untranslatable || Gen.uenumPayloadErrPos_untranslatable || Gen.vecElemErrPos_untranslatable || Gen.strUtf8ErrPos_untranslatable || Gen.cVecElemsVisited_untranslatable || Gen.gIterCheckAlign_untranslatable || Gen.gIterCheckMin_untranslatable || Gen.initWalkerErrPos_untranslatable || Gen.iterNewChecks_untranslatable || Gen.cFlexTruncNoop_untranslatable || Gen.cFlexTruncEmpty_untranslatable || Gen.cFlexPopSome_untranslatable || Gen.gFlexPushRoom_untranslatable || Gen.flexPushItemErrPos_untranslatable || Gen.gEnumVariantRoom_untranslatable || Gen.cTagInRange_untranslatable || Gen.gCheckAlign_untranslatable || Gen.gCheckMin_untranslatable || Gen.gVecValidate_untranslatable ||
+theorem guards_untranslatable_none : (Gen.gBoolInvalid_untranslatable || Gen.arrElemStart_untranslatable || Gen.arrElemLen_untranslatable || Gen.arrElemErrPos_untranslatable || Gen.flexFillItemErrPos_untranslatable || Gen.flexItemErrPos_untranslatable || Gen.flexSlotReadErrPos_untranslatable || Gen.uenumPayloadErrPos_untranslatable || Gen.vecElemErrPos_untranslatable || Gen.strUtf8ErrPos_untranslatable || Gen.cVecElemsVisited_untranslatable || Gen.gIterCheckAlign_untranslatable || Gen.gIterCheckMin_untranslatable || Gen.initWalkerErrPos_untranslatable || Gen.iterNewChecks_untranslatable || Gen.cFlexTruncNoop_untranslatable || Gen.cFlexTruncEmpty_untranslatable || Gen.cFlexPopSome_untranslatable || Gen.gFlexPushRoom_untranslatable || Gen.flexPushItemErrPos_untranslatable || Gen.gEnumVariantRoom_untranslatable || Gen.cTagInRange_untranslatable || Gen.gCheckAlign_untranslatable || Gen.gCheckMin_untranslatable || Gen.gVecValidate_untranslatable ||
     Gen.gVecFromArray_untranslatable || Gen.gStrValidate_untranslatable || Gen.gFlexSlotAlign_untranslatable || Gen.gFlexBadOffset_untranslatable ||
     Gen.gFlexShort_untranslatable || Gen.gFlexFillRoom_untranslatable || Gen.gFlexFillSeal_untranslatable || Gen.gFlexPushSeal_untranslatable) = false := by decide
 end FV.Bridge
